@@ -485,8 +485,7 @@ func randomizerSourceRule(P *Program, R *Report) {
 		for _, s := range sinksOfDeep(fn) {
 			if s.key == `"secretkey"` {
 				if g := genCallOf(s.val); g != nil && calleeIs(g, "common.RandomBigInt") {
-					a, _ := affineOf(callArgs(g)[0])
-					ok = a.String() == "LsCommit"
+					ok = genLenAffine(P, fn, g) == "LsCommit"
 				}
 			}
 		}
@@ -494,11 +493,10 @@ func randomizerSourceRule(P *Program, R *Report) {
 	}
 	if fn := mustFunc(P, R, rule, "gabi.NewProofRandomizers"); fn != nil {
 		ok := false
-		for _, s := range sinksOf(fn) {
+		for _, s := range sinksOfDeep(fn) {
 			if s.key == `"secretkey"` {
 				if g := genCallOf(s.val); g != nil && calleeIs(g, "common.RandomBigInt") {
-					a, _ := affineOf(callArgs(g)[0])
-					ok = a.String() == "LmCommit@1024"
+					ok = genLenAffine(P, fn, g) == "LmCommit@1024"
 				}
 			}
 		}
@@ -1582,4 +1580,38 @@ func usesThroughReturns(P *Program, v ssa.Value, depth int) []ssa.Instruction {
 		}
 	}
 	return out
+}
+
+// genLenAffine: the length argument of generator call g as an affine form; when g sits in a helper that takes the
+// length as a parameter, the form of what the call sites below fn pass for it (if they agree).
+func genLenAffine(P *Program, fn *ssa.Function, g *ssa.Call) string {
+	v := callArgs(g)[0]
+	if p, ok := v.(*ssa.Parameter); ok && p.Parent() != fn {
+		h := p.Parent()
+		idx := -1
+		for k, q := range h.Params {
+			if q == p {
+				idx = k
+			}
+		}
+		vals := map[string]bool{}
+		for _, f := range P.reachableFuncs(fn) {
+			if f.Blocks == nil {
+				continue
+			}
+			for _, ci := range callsIn(f) {
+				if staticCallee(ci) == h && idx >= 0 && idx < len(ci.Common().Args) {
+					a, _ := affineOf(ci.Common().Args[idx])
+					vals[a.String()] = true
+				}
+			}
+		}
+		if len(vals) == 1 {
+			for k := range vals {
+				return k
+			}
+		}
+	}
+	a, _ := affineOf(v)
+	return a.String()
 }
